@@ -103,6 +103,9 @@ type c20Input struct {
 	Concurrent bool `json:"concurrent,omitempty"`
 	// TLSViaCallback (e2e, tls): the TLS configuration has no Certificates; it supplies them through GetConfigForClient
 	TLSViaCallback bool `json:"tls_via_callback,omitempty"`
+	// route: Between: the first bytes of ANOTHER connection, accepted and read once between the scripted deadline expiry of
+	// this connection's first Read and its retry
+	Between []byte `json:"between,omitempty"`
 	DeadlineMs     int  `json:"deadline_ms,omitempty"`
 	Sent           int  `json:"sent,omitempty"`
 }
@@ -266,6 +269,17 @@ func c20AddCase(out *emit.Out, scenario string, in c20Input) {
 					_, rerr = conn.Read(buf)
 					if c20Class(rerr) != "timeout" {
 						break
+					}
+					if tries == 0 && len(in.Between) > 0 {
+						// while this connection waits for the rest of its first bytes, another one is accepted (by another
+						// listener of the same process) and served: connections share nothing
+						ch2 := make(chan net.Conn, 1)
+						ch2 <- &chunkConn{chunks: [][]byte{append([]byte(nil), in.Between...)}}
+						if ln2 := pa.NewListener(&oneShotListener{ch2}, tc, sc); ln2 != nil {
+							if c2, err := ln2.Accept(); err == nil {
+								c2.Read(make([]byte, 64))
+							}
+						}
 					}
 				}
 				c20LastErr = rerr
@@ -743,6 +757,14 @@ func runC20(p params) error {
 			c20AddCase(out, "route-deadline-inside-the-header", c20Input{Kind: "route", HasTLCP: true, HasTLS: true, Chunks: [][]byte{stream[:cut], {}, stream[cut:]}})
 		}
 		c20AddCase(out, "route-deadline-inside-the-header", c20Input{Kind: "route", HasTLCP: true, HasTLS: true, Chunks: [][]byte{stream[:1], {}, stream[1:3], {}, stream[3:]}})
+		// ... and another connection, of the other protocol, is accepted and served in between
+		for _, cut := range []int{1, 2, 3, 4} {
+			other := []byte{22, 1, 1, 0, 40, 1, 0, 0, 36}
+			if len(stream) > 1 && stream[1] == 1 {
+				other = []byte{22, 3, 3, 0, 40, 1, 0, 0, 36}
+			}
+			c20AddCase(out, "route-deadline-inside-the-header-other-connection-between", c20Input{Kind: "route", HasTLCP: true, HasTLS: true, Chunks: [][]byte{stream[:cut], {}, stream[cut:]}, Between: other})
+		}
 	}
 	// route: early disconnect at every offset 0..6, majors 1 and 3
 	for _, v := range []byte{1, 3, 2} {
